@@ -324,6 +324,55 @@ theorem children_not_source_order_witness :
   decide +kernel
 
 
+theorem list_keys_set (L : List (String × Nat)) (k : String) (v : Nat) :
+    ((match L.findIdx? (fun (e : String × Nat) => e.1 == k) with
+      | some i => L.set i (k, v)
+      | none => L ++ [(k, v)]) : List (String × Nat)).map (·.1) =
+    if (L.map (·.1)).contains k then L.map (·.1) else L.map (·.1) ++ [k] := by
+  induction L with
+  | nil => simp
+  | cons x t ih =>
+    rw [List.findIdx?_cons]
+    by_cases hx : (x.1 == k) = true
+    · have hxk : x.1 = k := by simpa using hx
+      simp [hxk]
+    · have hxk : ¬ x.1 = k := by simpa using hx
+      have hkx : ¬ k = x.1 := fun e => hxk e.symm
+      simp only [hx, Bool.false_eq_true, if_false]
+      have hc : (x.1 :: t.map (·.1)).contains k = (t.map (·.1)).contains k := by
+        rw [List.contains_cons]
+        have : (k == x.1) = false := by simpa using hkx
+        simp [this]
+      cases hfi : t.findIdx? (fun e => e.1 == k) with
+      | none =>
+        rw [hfi] at ih
+        simp only [Option.map_none, List.cons_append, List.map_cons] at ih ⊢
+        rw [ih, hc]
+        split <;> rfl
+      | some i =>
+        rw [hfi] at ih
+        simp only [Option.map_some, List.set_cons_succ, List.map_cons] at ih ⊢
+        rw [ih, hc]
+        split <;> rfl
+
+/-- **children come in first-insertion order**: the children of a class / def are listed along its `IndexMap`s
+(`recordToDocumentSymbol_spec`: template arguments, then fields, each with the range of its declaring identifier),
+and `IndexMap::insert` - the only way the indexer adds to them - leaves the order of the keys as it is when the key
+is already there (the entry then points to the latest declaration) and appends a new key at the end.  (The range of
+the parent entry is the range of *its* declaring identifier, `outlineOf_range`: the children's ranges do not lie
+inside it.) -/
+theorem indexMapInsert_keys (m : Array (String × Nat)) (k : String) (v : Nat) :
+    (indexMapInsert m k v).toList.map (·.1) =
+      if (m.toList.map (·.1)).contains k then m.toList.map (·.1) else m.toList.map (·.1) ++ [k] := by
+  obtain ⟨L⟩ := m
+  unfold indexMapInsert
+  have := list_keys_set L k v
+  simp only [List.findIdx?_toArray]
+  rw [← this]
+  cases L.findIdx? (fun e => e.1 == k) with
+  | none => simp
+  | some i => simp [Array.set!_eq_setIfInBounds]
+
 /-! ## Non-vacuity -/
 
 /-- `// doc\nclass A;` -/
